@@ -30,3 +30,7 @@ pub use sync_metrics::{SessionPhase, SyncError};
 #[cfg(p2panda_p2panda_verif)]
 #[doc(hidden)]
 pub use acked::Acked as VerifAcked;
+
+// Verification hook: crate-wide visibility of the metrics aggregator for `crate::verif_c40`.
+#[cfg(p2panda_p2panda_verif)]
+pub(crate) use sync_metrics::{Aggregator, SyncEvent};
